@@ -28,6 +28,15 @@ CLAIMED = {
             'population for every value of the node default.',
             'floats as reals; k<=3 (4 thorough); fixed baud/slot mix; z3 and symx trusted',
             'DESIGN.md §2 C06'),
+    'C03': ('symx',
+            'bounded symbolic execution of the real NliSolver analytic-GN code with z3; asinh/exp abstracted with exact '
+            'rational-function congruence; polynomial identity against the published closed form; models replayed on the float code',
+            'compute_nli/_gn_analytic/_psi with symbolic powers, baud rates, spacings and flat alpha/beta2(+-)/gamma/length equal '
+            'eq. 120/123 of arXiv:1209.0394 entry by entry (SPM 16/27, XPM 32/27, asinh kernel, L_eff) for uniform and mixed combs, k<=3 '
+            '(4 thorough); cube law, eta independent of powers and of other channels, eta>=0 (=> NLI>=0, monotone in powers and under '
+            'adding a channel), independence of supply order; real Fiber objects incl. modify-and-recompute histories.',
+            'floats as reals; analytic GN only (GGN outside); asinh/exp abstraction sound for unsat; fibre stub in the fully symbolic harness',
+            'DESIGN.md §2 C03'),
     'C04': ('symx',
             'bounded symbolic execution of the real Edfa code (clamp, NF models, ASE, flat gain profile) with z3; exact dB algebra; '
             'models replayed on the float code',
